@@ -166,6 +166,19 @@ def int_random_oracle(ctx, ex):
     tname, v, form = ex
     lo, hi = S.INT_RANGE[tname]
     _check_int(ctx, tname, v, form)
+    # the same call a second time gives the same object or rejection
+    if not (form == 'float' and abs(v) >= 2 ** 53):
+        res = []
+        for _ in range(2):
+            try:
+                r = _construct(S.INT_TYPES[tname], v, form)
+                res.append((type(r), int(r)))
+            except ValueError:
+                res.append(None)
+        if res[0] != res[1]:
+            ctx.fail('int-range:repeated-call-differs',
+                     '%s form=%s v=%d: %r then %r' % (tname, form, v, res[0],
+                                                      res[1]))
     ctx.case(nontrivial=(abs(v - lo) <= 3 or abs(v - hi) <= 3 or
                          v < lo or v > hi),
              classes=('int:' + ('inrange' if lo <= v <= hi
@@ -405,6 +418,11 @@ def _check_dt(ctx, x, how, ex):
         ctx.fail('datetime:str-not-stable', '%r -> %r' % (s, str(y)), ex)
     elif hash(y) != hash(x):
         ctx.fail('datetime:hash', repr((x, y)), ex)
+    elif str(x) != s or not (y == x) or str(y) != s:
+        # the same object asked a second time, after it has been printed,
+        # compared and hashed
+        ctx.fail('datetime:repeated-call-differs',
+                 '%s: second str() = %r, first %r' % (how, str(x), s), ex)
 
 
 def datetime_strategy():
@@ -508,6 +526,9 @@ def _bits(f, width):
     return struct.pack('>f' if width == 32 else '>d', f)
 
 
+_SHARED_PARSER = TupleParser()
+
+
 def reals_oracle(ctx, ex):
     tname, f = ex
     if tname == 'float':
@@ -536,6 +557,18 @@ def reals_oracle(ctx, ex):
                 or math.copysign(1, r) != math.copysign(1, f):
             ctx.fail('real:value-changed-' + tname,
                      '%r written as %r parsed as %r' % (f, s, float(r)))
+        # a parser object that has parsed other values before, and the
+        # same object written a second time
+        r3 = _SHARED_PARSER.unpack_single_value(s, ptype)
+        if type(r3) is not type(r) or _bits(r3, 64) != _bits(r, 64) and \
+                not (math.isnan(r3) and math.isnan(r)):
+            ctx.fail('real:repeated-call-differs',
+                     '%r parsed as %r by a fresh and as %r by a used parser'
+                     % (s, r, r3))
+        elif atomic_to_cim_xml(obj) != s:
+            ctx.fail('real:repeated-call-differs',
+                     '%r written as %r, then as %r' %
+                     (obj, s, atomic_to_cim_xml(obj)))
         # untyped parse (keybinding form) gives the same float
         r2 = TupleParser().unpack_single_value(s, None)
         if not math.isnan(f) and float(r2) != f and tname != 'real32':
@@ -571,119 +604,156 @@ _SEQ_TYPES = sorted(S.INT_TYPES) + ['real32', 'real64'] * 2 + \
     ['datetime'] * 3 + ['boolean', 'string', 'char16', 'reference']
 _SEQ_ECLS = ['prop', 'param', 'qual', 'qdecl']
 # value kinds a keybinding / an inferred-type property value can be built of
-_KB_KINDS = ('bool', 'int', 'float', 'str', 'bytes', 'cimdt', 'char16',
-             'ipath')
-_INFER_KINDS = ('bool', 'str', 'cimdt', 'char16', 'ipath', 'cpath', 'inst',
-                'class', 'datetime', 'timedelta')
+_KB_KINDS = ('bool', 'int', 'float', 'str', 'dtstr', 'bytes', 'cimdt',
+             'char16', 'ipath', 'cim:')
+_INFER_KINDS = ('bool', 'str', 'dtstr', 'cimdt', 'char16', 'ipath', 'cpath',
+                'inst', 'class', 'datetime', 'naive', 'timedelta', 'cim:')
 _URIS = ['C.k=1', '//h/root:C.k="a"', '/:C.k=1', 'C', '', 'a b']
 _DTSTRS = ['20240229120000.000000+060', '00000002000000.000000:000',
            '2024022912****.******+000', '20240229120000.000000+1000', '',
            'abc', '99999999235959.999999:000']
 
 
-def _t2(k, strat):
-    return st.tuples(st.just(k), strat)
+def _b(k, strat):
+    "a branch of _near_branches: (kind, strategy of (kind, payload))"
+    return (k, st.tuples(st.just(k), strat))
 
 
-@functools.lru_cache(maxsize=None)
-def _near_scalar(t):
-    "Value recipes that are (nearly) values of CIM type t"
+def _near_branches(t):
+    "Value recipes that are (nearly) values of CIM type t, as a list"
     if t in S.INT_TYPES:
         lo, hi = S.INT_RANGE[t]
         iv = st.one_of(
             st.sampled_from([lo - 1, lo, hi, hi + 1, 0, 1, 7, -1, 300, -200]),
             st.integers(lo, hi), st.integers(lo - 2 ** 16, hi + 2 ** 16))
         others = [x for x in sorted(S.INT_TYPES) if x != t]
-        return st.one_of(
-            _t2('int', iv), _t2('int', iv),
-            st.sampled_from(others).flatmap(lambda t2: _t2(
-                'cim:' + t2, st.one_of(st.integers(0, 127), S.cim_int(t2)))),
-            st.sampled_from(others).flatmap(lambda t2: _t2(
-                'cim:' + t2, st.one_of(st.integers(0, 127), S.cim_int(t2)))),
-            _t2('cim:' + t, S.cim_int(t)),
-            _t2('float', st.one_of(
+        return [
+            _b('int', iv), _b('int', iv),
+            _b('int', iv), _b('str', iv.map(str)),
+            *[_b('cim:' + t2, st.one_of(st.integers(0, 127), S.cim_int(t2)))
+              for t2 in others],
+            _b('cim:' + t, S.cim_int(t)),
+            _b('float', st.one_of(
                 iv.map(float), st.sampled_from([1.5, -0.5, math.inf,
                                                 math.nan]))),
-            _t2('str', st.one_of(iv.map(str), st.sampled_from(
+            _b('str', st.one_of(iv.map(str), st.sampled_from(
                 ['', ' 7 ', '0x10', '1.5', 'abc']))),
-            _t2('cim:real64', st.sampled_from([7.0, 300.0, 1.5, -1.0])),
-            _t2('bool', st.booleans()))
+            _b('cim:real64', st.sampled_from([7.0, 300.0, 1.5, -1.0])),
+            _b('bool', st.booleans())]
     if t in S.REAL_TYPES:
         other = 'real64' if t == 'real32' else 'real32'
-        return st.one_of(
-            _t2('float', st.one_of(st.sampled_from(
+        return [
+            _b('float', st.one_of(st.sampled_from(
                 [0.0, -0.0, 2.5, 1e300, 0.1, math.inf, math.nan]),
                 st.floats())),
-            _t2('float', st.floats(width=32)),
-            _t2('int', st.one_of(st.integers(-9, 9),
+            _b('float', st.floats(width=32)),
+            _b('int', st.one_of(st.integers(-9, 9),
                                  st.sampled_from([2 ** 53 + 1, 10 ** 400]))),
-            _t2('cim:' + other, S.cim_real(other)),
-            _t2('cim:' + other, S.cim_real(other)),
-            _t2('cim:' + t, S.cim_real(t)),
-            _t2('cim:uint8', st.integers(0, 255)),
-            _t2('cim:sint64', S.cim_int('sint64')),
-            _t2('str', st.sampled_from(['1.5', '-2.5e3', 'inf', 'nan', '',
+            _b('cim:' + other, S.cim_real(other)),
+            _b('cim:' + other, S.cim_real(other)),
+            _b('cim:' + t, S.cim_real(t)),
+            _b('cim:uint8', st.integers(0, 255)),
+            _b('cim:sint64', S.cim_int('sint64')),
+            _b('str', st.sampled_from(['1.5', '-2.5e3', 'inf', 'nan', '',
                                         'abc', '7'])),
-            _t2('bool', st.booleans()))
+            _b('bool', st.booleans())]
     if t == 'datetime':
-        return st.one_of(
-            _t2('datetime', S.timestamp()),
-            _t2('naive', S.timestamp(offsets=False)),
-            _t2('timedelta', S.interval()),
-            _t2('cimdt', S.datetime_scalar()),
-            _t2('dtstr', S.datetime_scalar()), _t2('dtstr', S.datetime_scalar()),
-            _t2('str', st.sampled_from(_DTSTRS)),
-            _t2('int', st.sampled_from([0, 20240229])),
-            _t2('cim:uint64', st.just(20240229120000)))
+        return [
+            _b('datetime', S.timestamp()),
+            _b('naive', S.timestamp(offsets=False)),
+            _b('timedelta', S.interval()),
+            _b('cimdt', S.datetime_scalar()),
+            _b('dtstr', S.datetime_scalar()), _b('dtstr', S.datetime_scalar()),
+            _b('str', st.sampled_from(_DTSTRS)),
+            _b('int', st.sampled_from([0, 20240229])),
+            _b('cim:uint64', st.just(20240229120000))]
     if t == 'boolean':
-        return st.one_of(
-            _t2('bool', st.booleans()), _t2('int', st.sampled_from([0, 1, 2])),
-            _t2('str', st.sampled_from(['', 'true', 'FALSE', 'x'])),
-            _t2('cim:uint8', st.sampled_from([0, 1])),
-            _t2('float', st.sampled_from([0.0, math.nan])))
+        return [
+            _b('bool', st.booleans()), _b('int', st.sampled_from([0, 1, 2])),
+            _b('str', st.sampled_from(['', 'true', 'FALSE', 'x'])),
+            _b('cim:uint8', st.sampled_from([0, 1])),
+            _b('float', st.sampled_from([0.0, math.nan]))]
     if t in ('string', 'char16'):
-        return st.one_of(
-            _t2('str', S.cim_string(8)), _t2('str', S.cim_string(8)),
-            _t2('char16', S.char16()),
-            _t2('bytes', st.sampled_from([b'', b'a', b'\xc3\xa4', b'\xff'])),
-            _t2('cimdt', S.datetime_scalar()),
-            _t2('int', st.sampled_from([0, 65])),
-            _t2('cim:uint16', st.just(65)),
-            _t2('inst', st.none()))
+        return [
+            _b('str', S.cim_string(8)), _b('str', S.cim_string(8)),
+            _b('char16', S.char16()),
+            _b('bytes', st.sampled_from([b'', b'a', b'\xc3\xa4', b'\xff'])),
+            _b('cimdt', S.datetime_scalar()),
+            _b('int', st.sampled_from([0, 65])),
+            _b('cim:uint16', st.just(65)),
+            _b('inst', st.none())]
     if t == 'reference':
-        return st.one_of(
-            _t2('ipath', S.instance_path(depth=0)),
-            _t2('ipath', S.instance_path(depth=0)),
-            _t2('cpath', S.class_path()),
-            _t2('str', st.sampled_from(_URIS)),
-            _t2('bytes', st.just(b'C.k=1')),
-            _t2('int', st.just(1)), _t2('inst', st.none()))
+        return [
+            _b('ipath', S.instance_path(depth=0)),
+            _b('ipath', S.instance_path(depth=0)),
+            _b('cpath', S.class_path()),
+            _b('str', st.sampled_from(_URIS)),
+            _b('bytes', st.just(b'C.k=1')),
+            _b('int', st.just(1)), _b('inst', st.none())]
     raise ValueError(t)
 
 
+def _kind_in(kind, kinds):
+    return kinds is None or kind in kinds or \
+        (kind.startswith('cim:') and 'cim:' in kinds)
+
+
 @functools.lru_cache(maxsize=None)
-def _near_kb(t):
-    "scalars a keybinding can hold"
-    return _near_scalar(t).filter(
-        lambda r: r[0] in _KB_KINDS or r[0].startswith('cim:'))
+def _near_scalar(t, kinds=None):
+    "scalar recipes for type t, only of the value kinds given"
+    return st.one_of(*[s for k, s in _near_branches(t) if _kind_in(k, kinds)])
 
 
 @functools.lru_cache(maxsize=None)
 def _near_value(t, arr, kinds=None):
     "scalar / list / None recipe for an element of type t (arr: is array)"
     # kinds: the value is for a source object that infers the type from it
-    sc = _near_scalar(t)
-    if kinds is not None:
-        sc = sc.filter(lambda r: r[0] in kinds or
-                       (r[0].startswith('cim:') and 'cim:' in kinds))
+    sc = _near_scalar(t, kinds)
     lst = st.lists(st.one_of(sc, sc, sc, st.just(('none', None))),
                    max_size=3).map(lambda l: ('list', l))
-    none = st.just(('none', None))
-    if kinds is not None:
-        none = sc
+    none = st.just(('none', None)) if kinds is None else sc
     if arr:
         return st.one_of(lst, lst, lst, lst, lst, lst, none, sc)
     return st.one_of(sc, sc, sc, sc, sc, sc, sc, sc, none, lst)
+
+
+class _SeqSt:
+    "the strategies of _seq_example, built once (building them is costly)"
+    _inst = None
+
+    def __init__(self):
+        self.type = st.sampled_from(_SEQ_TYPES)
+        self.arr = st.sampled_from([False, False, True])
+        self.mask4 = st.integers(1, 15)
+        self.mask5 = st.integers(1, 31)
+        self.idx = st.integers(0, 1)
+        self.ecls = st.sampled_from(_SEQ_ECLS)
+        self.nsteps = st.integers(2, 8)
+        self.name = st.sampled_from(_SEQ_NAMES)
+        self.keyform = st.sampled_from(['asis', 'asis', 'lower', 'upper'])
+        # (Hypothesis favours the first element of sampled_from)
+        self.kind = st.sampled_from(
+            ['upx'] * 7 + ['set'] * 3 + ['upd'] * 2 + ['item'] * 2 +
+            ['itemp', 'retype', 'copyprop', 'del'] +
+            ['eset'] * 3 + ['eretype', 'ecopy'])
+        self.upx_src = st.sampled_from(
+            ['inst', 'path', 'state', 'dict', 'tuples', 'kwargs', 'mixed',
+             'nocase', 'path', 'path', 'inst', 'inst', 'state'])
+        self.upd_src = st.sampled_from(['inst', 'dict', 'tuples', 'kwargs',
+                                        'state', 'props'])
+        self.flag4 = st.sampled_from([0, 0, 0, 1])
+        self.flag3 = st.sampled_from([0, 0, 1])
+        self.init = {}
+        for t in S.ALL_TYPES:
+            sc = S.scalar(t, ref_depth=0)
+            self.init[t, False] = sc
+            self.init[t, True] = S.array_of(sc, max_size=2)
+
+    @classmethod
+    def get(cls):
+        if cls._inst is None:
+            cls._inst = cls()
+        return cls._inst
 
 
 def _etype(cls, t):
@@ -691,94 +761,83 @@ def _etype(cls, t):
     return 'string' if t == 'reference' and cls in ('qual', 'qdecl') else t
 
 
+def _pick(mask, pool, most):
+    "up to `most` names of pool selected by the bits of mask"
+    names = [n for b, n in enumerate(pool) if mask >> b & 1]
+    k = mask % len(names)
+    return (names[k:] + names[:k])[:most]
+
+
 @st.composite
 def _seq_example(draw):
-    tdraw = st.sampled_from(_SEQ_TYPES)
-    adraw = st.sampled_from([False, False, True])
+    g = _SeqSt.get()
     insts = []
     for _ in range(2):
-        names = draw(st.lists(st.sampled_from(_SEQ_NAMES), min_size=2,
-                              max_size=4, unique=True))
         props = []
-        for n in names:
-            t, a = draw(tdraw), draw(adraw)
-            iv = draw(S.array_of(S.scalar(t, ref_depth=0), max_size=2)
-                      if a else S.scalar(t, ref_depth=0))
-            props.append((n, t, a, iv))
+        for n in _pick(draw(g.mask4), _SEQ_NAMES, 4):
+            t, a = draw(g.type), draw(g.arr)
+            props.append((n, t, a, draw(g.init[t, a])))
         insts.append(props)
     elems = []
     for _ in range(2):
-        c, t, a = draw(st.sampled_from(_SEQ_ECLS)), draw(tdraw), draw(adraw)
+        c, t, a = draw(g.ecls), draw(g.type), draw(g.arr)
         elems.append((c, _etype(c, t), a))
     # types as initially declared: used to aim the values of the steps
     ityp = [{n: (t, a) for n, t, a, _ in props} for props in insts]
 
     def aim(i, name):
-        return ityp[i].get(name) or (draw(tdraw), draw(adraw))
+        return ityp[i].get(name) or (draw(g.type), draw(g.arr))
 
     def items(i, kinds=None, scalars=False):
-        names = draw(st.lists(st.sampled_from(_SEQ_NAMES + ['Missing']),
-                              min_size=1, max_size=3, unique=True))
         out = []
-        for n in names:
+        for n in _pick(draw(g.mask5), _SEQ_NAMES + ['Missing'], 3):
             t, a = aim(i, n)
             if scalars:
-                a = False
-                v = draw(_near_kb(t))
+                v = draw(_near_scalar(t, _KB_KINDS))
             else:
                 v = draw(_near_value(t, a, kinds))
-            out.append((draw(st.sampled_from(['asis', 'asis', 'lower',
-                                              'upper'])), n, v))
+            out.append((draw(g.keyform), n, v))
         return out
 
     steps = []
-    for _ in range(draw(st.integers(2, 9))):
-        k = draw(st.sampled_from(
-            ['set'] * 3 + ['upx'] * 6 + ['upd'] * 2 + ['item'] * 2 +
-            ['itemp', 'retype', 'copyprop', 'del'] +
-            ['eset'] * 3 + ['eretype', 'ecopy']))
-        i = draw(st.integers(0, 1))
+    for _ in range(draw(g.nsteps)):
+        k = draw(g.kind)
+        i = draw(g.idx)
         if k in ('set', 'item', 'copyprop', 'del'):
-            n = draw(st.sampled_from(_SEQ_NAMES))
+            n = draw(g.name)
             t, a = aim(i, n)
-            if k == 'set':
-                steps.append((k, i, n, draw(_near_value(t, a))))
-            elif k == 'item':
+            if k in ('set', 'item'):
                 steps.append((k, i, n, draw(_near_value(t, a))))
             else:
                 steps.append((k, i, n))
         elif k == 'itemp':
-            n = draw(st.sampled_from(_SEQ_NAMES))
-            t, a = draw(tdraw), draw(adraw)
+            n = draw(g.name)
+            t, a = draw(g.type), draw(g.arr)
             steps.append((k, i, n, t, a, draw(_near_value(t, a))))
         elif k == 'retype':
-            n = draw(st.sampled_from(_SEQ_NAMES))
-            t = draw(tdraw)
+            n = draw(g.name)
+            t = draw(g.type)
             steps.append((k, i, n, t, draw(_near_value(t, aim(i, n)[1]))))
         elif k == 'upx':
-            src = draw(st.sampled_from(
-                ['dict', 'tuples', 'kwargs', 'mixed', 'nocase', 'path',
-                 'path', 'path', 'inst', 'inst', 'inst', 'state', 'state']))
+            src = draw(g.upx_src)
             if src == 'path':
-                its = items(i, _KB_KINDS, scalars=True)
+                its = items(i, scalars=True)
             elif src == 'inst':
-                its = items(i, _INFER_KINDS + ('cim:',))
+                its = items(i, _INFER_KINDS)
             elif src == 'state':
                 its = []
             else:
                 its = items(i)
-            steps.append((k, i, src, its,
-                          draw(st.sampled_from([0, 0, 0, 1]))))
+            steps.append((k, i, src, its, draw(g.flag4)))
         elif k == 'upd':
-            src = draw(st.sampled_from(['dict', 'tuples', 'kwargs', 'inst',
-                                        'state', 'props']))
-            its = [] if src == 'state' else items(i, _INFER_KINDS + ('cim:',))
-            steps.append((k, i, src, its, draw(st.sampled_from([0, 0, 1]))))
+            src = draw(g.upd_src)
+            its = [] if src == 'state' else items(i, _INFER_KINDS)
+            steps.append((k, i, src, its, draw(g.flag3)))
         elif k == 'eset':
             _, t, a = elems[i]
             steps.append((k, i, draw(_near_value(t, a))))
         elif k == 'eretype':
-            t = _etype(elems[i][0], draw(tdraw))
+            t = _etype(elems[i][0], draw(g.type))
             steps.append((k, i, t, draw(_near_value(t, elems[i][2]))))
         else:
             steps.append((k, i))
@@ -1151,6 +1210,11 @@ class _Seq:
                 if lk not in mnew:
                     continue
                 new = self.conv(mnew[lk], v)
+                if new is None or not _same(v, new['value']):
+                    # the value is not yet an object of the target type
+                    self.ctx.event('seq:upx-value-needs-conversion:' + (
+                        'from-cim-object' if src in ('path', 'inst', 'state')
+                        else 'from-plain-mapping'))
             else:
                 try:
                     fp = v if isinstance(v, CIMProperty) \
